@@ -59,6 +59,7 @@ func (op *FsTxn) AllocInode(kind nfstypes.Ftype3) *inode.Inode {
 	var ip *inode.Inode
 	inum := op.Atxn.AllocINum()
 	if inum != common.NULLINUM {
+		verifEv(8, op, uint64(inum))
 		ip = op.GetInodeLocked(inum)
 		if ip.Kind != inode.NF3FREE {
 			panic("AllocInode")
